@@ -84,4 +84,31 @@ example : DomC12 ⟨exRoNoId, exItemDelete, .ItemDelete⟩ = true ∧
       some [exLeaf "roID" "R", .node "story" [] none none [exLeaf "storyID" "A", exNoIdItem]] := by
   decide
 
+/-- stories with a BLANK ID are inside the domain of C01: [blank, "A", "None", "B"]; roStoryDelete of
+    ["None"] deletes exactly the story whose ID text is "None" (a blank ID is the key `none`, never
+    the string "None"), and the blank story stays where it was -/
+def exBlankStory : Xml := .node "story" [] none none [.node "storyID" [] none none []]
+def exRoBlank : Xml := .node "mos" [] none none [exLeaf "messageID" "1",
+  .node "roCreate" [] none none
+    [exLeaf "roID" "R", exBlankStory, exStory "A" [], exStory "None" [], exStory "B" []]]
+def exDeleteNone : Xml := exMsg (.node "roStoryDelete" [] none none [exLeaf "storyID" "None"])
+
+example : DomOrder ⟨exRoBlank, exDeleteNone, .StoryDelete⟩ = true := by decide
+example : storyIds exRoBlank = [none, some "A", some "None", some "B"] := by decide
+example : (addK .StoryDelete exRoBlank exDeleteNone).err = none ∧
+    (addK .StoryDelete exRoBlank exDeleteNone).warns = [] ∧
+    storyIds (addK .StoryDelete exRoBlank exDeleteNone).ro = [none, some "A", some "B"] ∧
+    (rcOf (addK .StoryDelete exRoBlank exDeleteNone).ro).map (·.kids) =
+      some [exLeaf "roID" "R", exBlankStory, exStory "A" [], exStory "B" []] := by decide
+
+/-- a BLANK reference names nothing: roStoryDelete of [blank] on the same running order is inside the
+    domain, deletes nothing (one StoryNotFound warning), and the protocol's sequence keeps the blank
+    story (`specIds` removes only present IDs that are named) -/
+def exDeleteBlank : Xml := exMsg (.node "roStoryDelete" [] none none [.node "storyID" [] none none []])
+example : DomOrder ⟨exRoBlank, exDeleteBlank, .StoryDelete⟩ = true := by decide
+example : (addK .StoryDelete exRoBlank exDeleteBlank).warns = [.storyNotFound] ∧
+    storyIds (addK .StoryDelete exRoBlank exDeleteBlank).ro = [none, some "A", some "None", some "B"] ∧
+    holdsOrder ⟨exRoBlank, exDeleteBlank, .StoryDelete⟩ (addK .StoryDelete exRoBlank exDeleteBlank) = true := by
+  decide
+
 end Mrm
